@@ -64,6 +64,7 @@ structure RunCtx where
   active : Bool := false  -- between run start and the end of after_STOP_ACTIVITY
   last : Vars := {}       -- variables at the previous sample of this run
   seenNums : List Nat := []
+  fresh : Bool := false   -- a run number has been published in the request the walk is in
 
 def tvStable (old new : TV) : Bool :=
   match old with
@@ -78,7 +79,7 @@ def walk (strict : Bool) : RunCtx → List Sample → Bool
     -- numbers are fresh and increasing
     c.seenNums.all (· < n) &&
     walk strict { n := n, t0 := t, active := true, last := { rnVar := some n, sosor := .val t, eosor := .empty, soeor := .empty, eoeor := .empty },
-                  seenNums := n :: c.seenNums } rest
+                  seenNums := n :: c.seenNums, fresh := true } rest
   | c, .runEvent _ _ n _ :: rest =>
     -- every other run event carries the current run's number (0 once the run is over)
     (n == c.n || n == 0) && walk strict c rest
@@ -88,6 +89,16 @@ def walk (strict : Bool) : RunCtx → List Sample → Bool
     -- glue goes on after that, with GO_ERROR, when the STOP reported a hook failure): the run is over
     let over := marks.contains ((Moment.after .STOP_ACTIVITY).name, true)
     -- (1) negative-weight before_START hooks do not see the new number; the others see number and SOSOR
+    -- (8) a NON-NEGATIVE before_START_ACTIVITY hook belongs to the second pass of the moment: it runs only after
+    -- THIS request has published its run number (and then sees that number and its start stamp: the clause below)
+    (!(inBeforeStart ∧ h.tw ≥ 0) || c.fresh) &&
+    -- (9) the non-negative hooks of the other moments of the run bracket see the stamp their moment writes
+    -- between its two passes: the end time at before_STOP_ACTIVITY / before_GO_ERROR, the start-completion time
+    -- at after_START_ACTIVITY, the end-completion time at after_STOP_ACTIVITY / after_GO_ERROR
+    (!(c.active && !over && decide (h.tw ≥ 0)) ||
+      ((!(h.trig = .before .STOP_ACTIVITY ∨ h.trig = .before .GO_ERROR) || v.soeor.isVal) &&
+       (!(h.trig = .after .START_ACTIVITY) || v.eosor.isVal) &&
+       (!(h.trig = .after .STOP_ACTIVITY ∨ h.trig = .after .GO_ERROR) || v.eoeor.isVal))) &&
     (if inBeforeStart ∧ h.tw < 0 then true
      else if c.active && over then v.rnVar == none      -- …and its number is gone
      else if c.active then
@@ -114,7 +125,7 @@ def walk (strict : Bool) : RunCtx → List Sample → Bool
       (!((before == .RUNNING && after != .RUNNING) || (before != .ERROR && after == .ERROR)) ||
         (!strict && forced) || (v.soeor.isVal && v.eoeor.isVal))
      else true) &&
-    walk strict (if c.active then { c with last := v, active := !stopped && c.active } else c) rest
+    walk strict (if c.active then { c with last := v, active := !stopped && c.active, fresh := false } else { c with fresh := false }) rest
 
 def specC10 (hooks : List Hook) (reqs : List Req) (tr : ITrace) : Bool :=
   walk true {} (samplesOf hooks reqs .STANDBY (segments tr []))
